@@ -2,7 +2,7 @@
 which predicates are evaluated on the implementation's trace, and what is trusted."""
 import collections, hashlib, json, os
 from common import *
-import daemon, preds, trace, hostlist, redfish, speclayer, libpm, config
+import daemon, preds, trace, hostlist, redfish, speclayer, libpm, config, lexlayer
 
 TRUSTED_BASE = [
     'Lean 4.33.0 kernel (thorough tier: re-checked by leanchecker)',
@@ -126,6 +126,7 @@ PROPS['C10'] = dict(layers=[D(P.p_c10)], planned=['C10_head_only', 'C10_transcri
 PROPS['C12'] = dict(layers=[D(P.p_c12, P.p_c12_disconnect, P.p_c04, profile=dict(pF6=0.02, calm=0.3))], planned=['C12_ioerr', 'C12_recover_partial'])
 PROPS['C13'] = dict(layers=[config.ConfigLayer()], planned=['C13_listings at daemon level (nodes / device replies) — the replies themselves are mirrored in Pm.Daemon and compared on every run'])
 PROPS['C14'] = dict(layers=[hostlist.HostlistLayer()], planned=['C14_roundtrip', 'C14_sort_perm', 'C14_three_hops'])
+PROPS['C18'] = dict(layers=[lexlayer.LexLayer()], planned=['the flex/bison automata, malloc and regcomp are not modelled: their memory safety on arbitrary input is observed under ASan/UBSan by the whole-file fuzz of this layer, not proved'])
 PROPS['C19'] = dict(layers=[redfish.RedfishLayer()], planned=['C19_bad_input (setplugs argument checks, malformed ranges) on a model of the command parser'])
 PROPS['C20'] = dict(layers=[D(P.p_c20, profile=dict(pF6=0.02, maxclients=6))], planned=['C20_refcount', 'C20_objects', 'C20_shutdown (signal path / teardown not modelled yet)'])
 PROPS['C15'] = dict(layers=[D(P.p_c15, P.p_c04, profile=dict(garbage=0.06, maxclients=6))], planned=['C15_stream over whole runs (needs a ghost record of bytes written in earlier passes)', 'cleanliness of the data-carrying lines through the hostlist mirror'])
